@@ -143,11 +143,34 @@ func allIdle() bool {
 			first = false
 			continue
 		}
-		if strings.Contains(line, "[running") || strings.Contains(line, "[runnable") {
+		// only goroutines in a state known to be a wait for an external event count as idle; anything else --
+		// running, runnable, preempted, GC assist wait, waiting on a mutex (its holder is busy) -- is work in progress
+		i := strings.Index(line, "[")
+		j := strings.LastIndex(line, "]")
+		if i < 0 || j < i {
+			return false
+		}
+		st := line[i+1 : j]
+		if k := strings.Index(st, ","); k >= 0 { // "chan receive, 2 minutes", "select, locked to thread"
+			st = st[:k]
+		}
+		if !idleStates[st] {
+			if os.Getenv("QUIESCE_DEBUG") != "" && st != "running" && st != "runnable" {
+				fmt.Fprintln(os.Stderr, "QUIESCE: busy state:", st)
+			}
 			return false
 		}
 	}
 	return true
+}
+
+var idleStates = map[string]bool{
+	"chan receive": true, "chan receive (nil chan)": true, "chan send": true, "chan send (nil chan)": true,
+	"select": true, "select (no cases)": true, "sleep": true, "IO wait": true, "syscall": true,
+	"sync.Cond.Wait": true, "sync.WaitGroup.Wait": true, "finalizer wait": true,
+	"GC worker (idle)": true, "GC sweep wait": true, "GC scavenge wait": true, "force gc (idle)": true,
+	"cleanup wait": true, "debug call": true, "timer goroutine (idle)": true,
+	"unknown wait reason": true, // pkg/sleep parks with a reason code the runtime has no name for
 }
 
 // Quiesce waits until every sleeper-based goroutine is parked and no goroutine is runnable.
